@@ -207,10 +207,15 @@ def run_oracle(ops, tag="o", timeout=1800):
             res.append({"unparsable": l})
     if len(res) != len(ops):
         # the oracle process died (abort, stack overflow, OOM) at op len(res)
-        res.append({"died": True, "returncode": r.returncode, "stderr": r.stderr.decode(errors="replace")[-500:]})
+        res.append({"died": True, "returncode": r.returncode, "stderr": _head_tail(r.stderr.decode(errors="replace"))})
         while len(res) < len(ops):
             res.append({"not_run": True})
     return res
+
+
+def _head_tail(t, head=2500, tail=500):
+    """how a process died is said at the top of its stderr, where at the bottom"""
+    return t if len(t) <= head + tail else t[:head] + "\n...\n" + t[-tail:]
 
 
 def run_oracle_resilient(ops, tag="o", timeout=1800):
